@@ -15,13 +15,13 @@ struct Argon2d {
 	// variable-length hash H' (spec 3.3)
 	static void hprime(uint8_t* out, uint32_t T, const uint8_t* in, size_t inlen) {
 		std::vector<uint8_t> x; le32(x, T); x.insert(x.end(), in, in + inlen);
-		if (T <= 64) { blake2b(out, T, x.data(), x.size()); return; }
+		if (T <= 64) { b2b(out, T, x.data(), x.size()); return; }
 		uint32_t r = (T + 31) / 32 - 2;
 		uint8_t V[64];
-		blake2b(V, 64, x.data(), x.size());
+		b2b(V, 64, x.data(), x.size());
 		memcpy(out, V, 32);
-		for (uint32_t i = 2; i <= r; ++i) { uint8_t W[64]; blake2b(W, 64, V, 64); memcpy(V, W, 64); memcpy(out + 32 * (i - 1), V, 32); }
-		blake2b(out + 32 * r, T - 32 * r, V, 64);
+		for (uint32_t i = 2; i <= r; ++i) { uint8_t W[64]; b2b(W, 64, V, 64); memcpy(V, W, 64); memcpy(out + 32 * (i - 1), V, 32); }
+		b2b(out + 32 * r, T - 32 * r, V, 64);
 	}
 
 	static uint64_t rotr(uint64_t x, int n) { return (x >> n) | (x << (64 - n)); }
@@ -55,7 +55,7 @@ struct Argon2d {
 		le32(h0in, saltlen); h0in.insert(h0in.end(), (const uint8_t*)salt, (const uint8_t*)salt + saltlen);
 		le32(h0in, 0); le32(h0in, 0); // secret, associated data
 		uint8_t seed[72];
-		blake2b(seed, 64, h0in.data(), h0in.size());
+		b2b(seed, 64, h0in.data(), h0in.size());
 		const uint32_t laneLen = m, segLen = m / 4;
 		for (uint32_t i = 0; i < 2; ++i) {
 			seed[64] = (uint8_t)i; seed[65] = seed[66] = seed[67] = 0; // block index
